@@ -648,7 +648,9 @@ func (u *c11Univ) obsSrc(ps [][2]int, gk []int, del, loop bool) string {
 		sb.WriteString("println(q)\n")
 	}
 	sb.WriteString("println(len(m))\nprintln(m)\n")
-	sb.WriteString("r = []; for kv = m { r = r + [[kv.key, kv.value]] }; println(r)\n")
+	// (the library's keys(m) is one more way of iterating: it has to agree with the for loop, else the line shows both)
+	sb.WriteString("r = []; kr = []; for kv = m { r = r + [[kv.key, kv.value]]; kr = kr + [kv.key] }; ks = catch(keys(m)); " +
+		"println(if !ks.err && str(ks.value) == str(kr) {r} else {[\"keys(m) disagrees with the iteration\", ks, kr]})\n")
 	sb.WriteString("println(first(m))\nc = catch(rest(m)); println(c.err); println([c.value])\n")
 	gs := make([]string, len(gk))
 	for i, k := range gk {
